@@ -92,6 +92,7 @@ func CheckOnCurve(x, y []byte) bool {
 }
 
 var one = big.NewInt(1)
+var scalarOne = new(fiat.SM2ScalarElement).One()
 var n = internal.GetN()
 var nBytes = n.Bytes()
 var nMinus1 = new(big.Int).Sub(n, one)
@@ -212,8 +213,7 @@ func SignHashed(rand io.Reader, priv, e []byte) (r, s []byte, err error) {
 			return
 		}
 
-		var eInt, rInt, sInt, rkInt, dInt, d1Int big.Int
-		var d1, d1Inv fiat.SM2ScalarElement
+		var eInt, rInt big.Int
 
 		x := kG.GetAffineX() // 避免计算y坐标，可以节约计算量。x不需要保密，但z的数值会泄露k的信息，因此必须使用常数时间求逆 (the projective Z of [k]G depends on the nonce: constant-time inversion)
 
@@ -226,40 +226,38 @@ func SignHashed(rand io.Reader, priv, e []byte) (r, s []byte, err error) {
 			continue
 		}
 
-		var k big.Int
-		k.SetBytes(K[:])
+		// r is public; everything that involves the nonce k or the private key d is computed with
+		// constant-time arithmetic modulo n (math/big is variable-time in the size of its operands)
+		rBytes := ensure32Bytes(&rInt)
+		var kS, rS, rk, dS, d1, d1Inv, sS fiat.SM2ScalarElement
+		kS.SetBytes(K[:])   // 1 <= k <= n-1 has been checked above
+		rS.SetBytes(rBytes) // r < n
 
-		rkInt.Add(&rInt, &k)
-		// 标准要求排除的第二种情形
-		rkBytes := rkInt.Bytes()
-		if len(rkBytes) == 32 && utils.ConstantTimeCmp(rkBytes, nBytes, 32) == 0 {
+		// 标准要求排除的第二种情形: r + k = n
+		rk.Add(&rS, &kS)
+		if rk.IsZero() == 1 {
 			continue
 		}
 
-		dInt.SetBytes(priv)
-		d1Int.Add(&dInt, one)
-
 		//SM2ScalarElement.SetBytes要求长度为32，因此，如果私钥实际长度短于32字节（标准不排除此种情形），左边补零（标准规定使用大端字节序）
-		d1Bytes := d1Int.Bytes()
-		var buf [32]byte
-		copy(buf[32-len(d1Bytes):], d1Bytes)
-
-		d1.SetBytes(buf[:]) // priv = n - 1 已经被排除，因此不会导致 d1 = 0. 编译器告警此处可忽略，因私钥的范围已经在一开始就检查过了
-		d1Inv.Invert(&d1)   // **常数时间**算法 constant time inversion here, about 10% performance hit
+		var dBytes [32]byte
+		copy(dBytes[32-len(priv):], priv)
+		dS.SetBytes(dBytes[:])     // 1 <= priv <= n-2 has been checked by TestPrivateKey
+		d1.Add(&dS, scalarOne)     // priv = n - 1 已经被排除，因此不会导致 d1 = 0
+		d1Inv.Invert(&d1)          // **常数时间**算法 constant time inversion here, about 10% performance hit
 
 		// 标准要求计算  (k - r * priv) / (1 + priv)
 		// 这等价于 (k + r) / (1 + priv) - r
 		// 后者可以节约一次乘法
-		sInt.Mul(&rkInt, d1Inv.ToBigInt())
-		sInt.Sub(&sInt, &rInt)
-		sInt.Mod(&sInt, n)
+		sS.Mul(&rk, &d1Inv)
+		sS.Sub(&sS, &rS)
 
-		if sInt.Sign() == 0 {
+		if sS.IsZero() == 1 {
 			continue
 		}
 
-		// 注意，标准要求使用大端字节序，因此，如果输出结果高位字节为0，big.Int.Bytes_Unsafe()将输出少于32字节
-		return ensure32Bytes(&rInt), ensure32Bytes(&sInt), nil
+		// 注意，标准要求使用大端字节序，输出固定为32字节
+		return rBytes, sS.Bytes(), nil
 	}
 }
 
